@@ -309,6 +309,10 @@ static void child_main(const Case& c) {
   } else {
     fprintf(R, "PROBE skipped\n");
   }
+  // destruction of both instances is part of the history: a pointer left dangling by a failed call is freed again here
+  fprintf(R, "DEL begin\n"); fflush(R);
+  delete A; delete B;
+  fprintf(R, "DEL ok\n");
   fprintf(R, "DONE\n"); fflush(R);
 }
 
